@@ -746,6 +746,152 @@ vcast_usize_f64(self.nodes_vec.len())
         }),
 //@ end
 
+//@ extract fn src/graph/query.rs _get_successor_nodes props=C02,C20 ty=Graph
+//@ rewrite
+-> Result<Vec<&Arc<Node<T, A>>>, Error>
+//@ with
+-> (r: Result<Vec<&Arc<Node<T, A>>>, Error>)
+//@ rewrite
+            Some(hashset) => Ok(hashset
+                .iter()
+                .map(|index| self.get_node_by_index(index).unwrap())
+                .collect()),
+//@ with
+            Some(hashset) => Ok({
+                let it = vset_iter(hashset);
+                let ghost src = it.remaining();
+                proof { assert(hashset@ == self.succ_set(nodex_index)); }
+                let mut out: Vec<&Arc<Node<T, A>>> = Vec::new();
+                for index in iter: it
+                    invariant
+                        self.wf_nodes(), self.wf_index_members(),
+                        hashset@ == self.succ_set(nodex_index),
+                        iter.seq() == src,
+                        forall|k: int| 0 <= k < src.len() ==> hashset@.contains(*#[trigger] src[k]),
+                        out@.len() == iter.index@,
+                        forall|k: int| 0 <= k < out@.len() ==> **#[trigger] out@[k] == *self.nodes_vec@[*src[k] as int],
+                {
+                    proof { assert(hashset@.contains(*index)); }
+                    out.push(self.get_node_by_index(index).unwrap());
+                }
+                proof {
+                    let ids = Seq::new(src.len(), |k: int| *src[k]);
+                    assert(ids.no_duplicates()) by {
+                        assert forall|a: int, b: int| 0 <= a < ids.len() && 0 <= b < ids.len() && a != b implies ids[a] != ids[b] by {
+                            assert(src[a] != src[b]);
+                        }
+                    }
+                    assert forall|x: usize| hashset@.contains(x) implies #[trigger] ids.contains(x) by {
+                        let k = choose|k: int| 0 <= k < src.len() && *#[trigger] src[k] == x;
+                        assert(ids[k] == x);
+                    }
+                    assert forall|k: int| 0 <= k < ids.len() implies hashset@.contains(#[trigger] ids[k]) && ids[k] < self.n() && **out@[k] == *self.nodes_vec@[ids[k] as int] by {
+                        assert(hashset@.contains(*src[k]));
+                    }
+                    assert(self.lists_nodes_of(hashset@, out@));
+                }
+                out
+            }),
+//@ spec
+    requires
+        self.wf_nodes(),
+        self.wf_index_members(),
+    ensures
+        // [C02.adjacency.successor_nodes]
+        !self.knows(node_name) ==> is_err_kind(r, ErrorKind::NodeNotFound),
+        self.knows(node_name) ==> r.is_ok() && self.lists_nodes_of(self.succ_set(self.nodes_map@[node_name]), r.unwrap()@),
+//@ end
+
+//@ extract fn src/graph/query.rs _get_predecessor_nodes props=C02,C20 ty=Graph
+//@ rewrite
+-> Result<Vec<&Arc<Node<T, A>>>, Error>
+//@ with
+-> (r: Result<Vec<&Arc<Node<T, A>>>, Error>)
+//@ rewrite
+            Some(hashset) => Ok(hashset
+                .iter()
+                .map(|index| self.get_node_by_index(index).unwrap())
+                .collect()),
+//@ with
+            Some(hashset) => Ok({
+                let it = vset_iter(hashset);
+                let ghost src = it.remaining();
+                proof { assert(hashset@ == self.pred_set(node_index)); }
+                let mut out: Vec<&Arc<Node<T, A>>> = Vec::new();
+                for index in iter: it
+                    invariant
+                        self.wf_nodes(), self.wf_index_members(),
+                        hashset@ == self.pred_set(node_index),
+                        iter.seq() == src,
+                        forall|k: int| 0 <= k < src.len() ==> hashset@.contains(*#[trigger] src[k]),
+                        out@.len() == iter.index@,
+                        forall|k: int| 0 <= k < out@.len() ==> **#[trigger] out@[k] == *self.nodes_vec@[*src[k] as int],
+                {
+                    proof { assert(hashset@.contains(*index)); }
+                    out.push(self.get_node_by_index(index).unwrap());
+                }
+                proof {
+                    let ids = Seq::new(src.len(), |k: int| *src[k]);
+                    assert(ids.no_duplicates()) by {
+                        assert forall|a: int, b: int| 0 <= a < ids.len() && 0 <= b < ids.len() && a != b implies ids[a] != ids[b] by {
+                            assert(src[a] != src[b]);
+                        }
+                    }
+                    assert forall|x: usize| hashset@.contains(x) implies #[trigger] ids.contains(x) by {
+                        let k = choose|k: int| 0 <= k < src.len() && *#[trigger] src[k] == x;
+                        assert(ids[k] == x);
+                    }
+                    assert forall|k: int| 0 <= k < ids.len() implies hashset@.contains(#[trigger] ids[k]) && ids[k] < self.n() && **out@[k] == *self.nodes_vec@[ids[k] as int] by {
+                        assert(hashset@.contains(*src[k]));
+                    }
+                    assert(self.lists_nodes_of(hashset@, out@));
+                }
+                out
+            }),
+//@ spec
+    requires
+        self.wf_nodes(),
+        self.wf_index_members(),
+    ensures
+        // [C02.adjacency.predecessor_nodes]
+        !self.knows(node_name) ==> is_err_kind(r, ErrorKind::NodeNotFound),
+        self.knows(node_name) ==> r.is_ok() && self.lists_nodes_of(self.pred_set(self.nodes_map@[node_name]), r.unwrap()@),
+//@ end
+
+//@ extract fn src/graph/query.rs get_successor_nodes props=C02,C20 ty=Graph
+//@ rewrite
+-> Result<Vec<&Arc<Node<T, A>>>, Error>
+//@ with
+-> (r: Result<Vec<&Arc<Node<T, A>>>, Error>)
+//@ spec
+    requires
+        self.wf_nodes(),
+        self.wf_index_members(),
+    ensures
+        // [C02.adjacency.successor_nodes_directed_only]
+        !self.specs.directed ==> is_err_kind(r, ErrorKind::WrongMethod),
+        self.specs.directed && !self.knows(node_name) ==> is_err_kind(r, ErrorKind::NodeNotFound),
+        // [C02.adjacency.successor_nodes_public]
+        self.specs.directed && self.knows(node_name) ==> r.is_ok() && self.lists_nodes_of(self.succ_set(self.nodes_map@[node_name]), r.unwrap()@),
+//@ end
+
+//@ extract fn src/graph/query.rs get_predecessor_nodes props=C02,C20 ty=Graph
+//@ rewrite
+-> Result<Vec<&Arc<Node<T, A>>>, Error>
+//@ with
+-> (r: Result<Vec<&Arc<Node<T, A>>>, Error>)
+//@ spec
+    requires
+        self.wf_nodes(),
+        self.wf_index_members(),
+    ensures
+        // [C02.adjacency.predecessor_nodes_directed_only]
+        !self.specs.directed ==> is_err_kind(r, ErrorKind::WrongMethod),
+        self.specs.directed && !self.knows(node_name) ==> is_err_kind(r, ErrorKind::NodeNotFound),
+        // [C02.adjacency.predecessor_nodes_public]
+        self.specs.directed && self.knows(node_name) ==> r.is_ok() && self.lists_nodes_of(self.pred_set(self.nodes_map@[node_name]), r.unwrap()@),
+//@ end
+
 //@ extract fn src/graph/query.rs get_node_by_index props=C02,C20 ty=Graph
 //@ rewrite
 -> Option<&Arc<Node<T, A>>>
